@@ -2,7 +2,7 @@
 # Run every behaviour-preserving edit in benign/<id>/ (patch.diff, desc.txt, checks = list of check ids) against the
 # listed checks, each in a scratch worktree of /repo (HEX_REPO).  Expected: exit 0 (or 2 = undecided, never 1).
 # Writes benign/MATRIX.txt.    usage: tools/benign_matrix.sh [id...]
-cd "$(dirname "$0")/.."
+cd "$(dirname "$0")/.."; mkdir -p out/logs
 IDS="$@"; [ -n "$IDS" ] || IDS=$(ls benign | grep -E '^[a-z]+-[0-9]+$')
 OUT=benign/MATRIX.txt
 [ -n "$*" ] && OUT=out/logs/benign_partial_$$.txt
